@@ -102,7 +102,9 @@ func (g *gen) anyRec() int {
 	case 3:
 		return len(g.w.recs) + 3 + g.r.Intn(3)
 	}
-	return g.r.Intn(len(g.w.recs) + 1)
+	// never len(recs): that is the id the record under construction will get, and a record cannot
+	// contain its own hash
+	return g.r.Intn(len(g.w.recs))
 }
 
 // coverage computes the read-key coverage the validator demands after removing `removed`.
